@@ -12,7 +12,7 @@
    (F) the FAITHFUL model of what the code does, branch by branch, with every float operation
        replaced by the exact one: longitudes are compared as angles of (x,y) in [0,2pi) by exact sign
        tests, latitudes through sin(lat) = z/|v| by sign-aware squared comparison, the pole snap
-       |z| > 1 - ERROR_TOLERANCE and the plane test |n.p| <= MACHINE_EPSILON use the exact values of
+       |z| > 1 - ERROR_TOLERANCE, the plane test |n.p| <= ERROR_TOLERANCE and the parallel test <= MACHINE_EPSILON use the exact values of
        the two constants (Gen/C14_consts.v, regenerated from constants.py).  Tests of the form
        isclose(lon1, lon2) are idealised to equality of the exact angles.
    Definitions only. *)
@@ -130,16 +130,17 @@ Definition c14_lat_abs (l : c14_lat) : c14_lat := (Z.abs (fst l), snd l).
 Definition c14_lat_pos (l : c14_lat) : bool := 0 <? fst l.
 Definition c14_lat_negv (l : c14_lat) : bool := fst l <? 0.
 
-(* _decide_pole_latitude(lat1, lat2):  lat_extend < pi  <->  |lat2| < |lat1| *)
+(* _decide_pole_latitude(lat1, lat2):  lat_extend < pi  <->  |lat2| < |lat1|: the pole on lat1's side, otherwise
+   the pole on lat2's side *)
 Definition c14_decide_pole (l1 l2 : c14_lat) : c14_lat :=
   if negb (c14_lat_le (c14_lat_abs l1) (c14_lat_abs l2))
   then (if c14_lat_pos l1 then c14_NP else c14_SP)
-  else (if c14_lat_pos l1 then c14_SP else c14_NP).
+  else (if c14_lat_pos l2 then c14_NP else c14_SP).
 
-(* allclose(dot(cross(a,b), p), 0, rtol=EPS, atol=EPS) for the unit vectors a/|a|, b/|b|, p/|p| *)
+(* allclose(dot(cross(a,b), p), 0, rtol=ERROR_TOLERANCE, atol=ERROR_TOLERANCE) for the unit vectors a/|a|, b/|b|, p/|p| *)
 Definition c14_plane_ok (a b p : c14_vec) : bool :=
   let t := c14_triple a b p in
-  t * t * (c14_EPS_den * c14_EPS_den) <=? c14_EPS_num * c14_EPS_num * (c14_nsq a * c14_nsq b * c14_nsq p).
+  t * t * (c14_TOL_den * c14_TOL_den) <=? c14_TOL_num * c14_TOL_num * (c14_nsq a * c14_nsq b * c14_nsq p).
 
 (* the arc is exactly 180 degrees: ValueError *)
 Definition c14_antipodal (a b : c14_vec) : bool := c14_is0 (c14_cross a b) && (c14_dot a b <? 0).
